@@ -45,27 +45,51 @@ Theorem C20_stable : forall utf8_valid, (forall s, Forall (fun c => c < 128) s -
 Proof. exact get_machine_id_stable. Qed.
 Print Assumptions C20_stable.
 
-(* every other message: not handled, nothing written, nothing stored; filter_peer agrees *)
+(* the composed statement about the id: from any state the environment assumption allows (no id file
+   yet, or the file holds what create_and_store wrote for some earlier draw and clock - i.e. nobody
+   else writes /tmp/dbus_machine_uuid), the id returned is a 32-digit hexadecimal string and every
+   later call returns the same string, whatever is drawn, read from the clock or writable later *)
+Theorem C20_id_always_32hex : forall utf8_valid, (forall s, Forall (fun c => c < 128) s -> utf8_valid s = true) ->
+  forall e f, DrawOK e ->
+  match f machine_id_path with
+  | None => e_write_ok e = true
+  | Some c => exists e0, bytes_ok (e_rand e0) /\ c = new_id e0
+  end ->
+  exists id f1, get_machine_id utf8_valid e f = Ok (id, f1) /\ MachineId id
+                /\ forall e2, get_machine_id utf8_valid e2 f1 = Ok (id, f1).
+Proof. exact id_always_32hex. Qed.
+Print Assumptions C20_id_always_32hex.
+
+(* EVERY other message - any type other than method call, any other interface or member, absent
+   fields - is not handled, nothing is written, nothing is stored *)
 Theorem C20_peer_other : forall utf8_valid e f m, ~ IsPeerCall m ->
-  handle_peer_message utf8_valid e f m = Ok (false, [], f) /\ filter_peer (m_dh m) = false.
-Proof.
-  intros u e f m H. split; [now apply handle_peer_other|].
-  destruct (filter_peer (m_dh m)) eqn:E; [|reflexivity]. apply filter_peer_spec in E. contradiction.
-Qed.
+  handle_peer_message utf8_valid e f m = Ok (false, [], f).
+Proof. intros u e f m H. now apply handle_peer_other. Qed.
 Print Assumptions C20_peer_other.
 
-(* Ping: handled, exactly one message written, the empty reply with the call's serial to its sender *)
+(* filter_peer (which sees the header only) accepts exactly the headers naming Peer.Ping or
+   Peer.GetMachineId; on method calls it agrees with handle_peer_message *)
+Theorem C20_filter_peer : forall h, filter_peer h = true <-> PeerHeader h.
+Proof. exact filter_peer_spec. Qed.
+Print Assumptions C20_filter_peer.
+
+Theorem C20_peer_call_iff : forall m, IsPeerCall m <-> m_typ m = MCall /\ PeerHeader (m_dh m).
+Proof. exact is_peer_call_iff. Qed.
+Print Assumptions C20_peer_call_iff.
+
+(* method call Peer.Ping: handled, exactly one message written, the empty method return with the
+   call's serial addressed to its sender *)
 Theorem C20_peer_ping : forall utf8_valid e f m, IsPing m ->
-  exists r, handle_peer_message utf8_valid e f m = Ok (true, [r], f) /\ EmptyReplyTo m r
-            /\ filter_peer (m_dh m) = true.
+  exists r, handle_peer_message utf8_valid e f m = Ok (true, [r], f) /\ EmptyReplyTo m r.
 Proof.
   intros u e f m H. exists (make_response (m_dh m)). split; [now apply handle_peer_ping|].
-  split; [apply make_response_empty_reply|]. apply filter_peer_spec. left. assumption.
+  apply make_response_empty_reply.
 Qed.
 Print Assumptions C20_peer_ping.
 
-(* GetMachineId: handled, exactly one message written, a reply with the call's serial to its sender
-   whose body is the id: the stored one, or a fresh 32-hex-digit one that is stored *)
+(* method call Peer.GetMachineId: handled, exactly one message written, a method return with the
+   call's serial addressed to its sender whose body is the id: the stored one, or a fresh
+   32-hex-digit one that is stored *)
 Theorem C20_peer_get_id : forall utf8_valid, (forall s, Forall (fun c => c < 128) s -> utf8_valid s = true) ->
   forall e f m, IsGetMachineId m -> DrawOK e ->
   match f machine_id_path with
@@ -77,13 +101,11 @@ Theorem C20_peer_get_id : forall utf8_valid, (forall s, Forall (fun c => c < 128
     /\ match f machine_id_path with
        | Some c => id = c /\ f1 = f
        | None => id = new_id e /\ MachineId id /\ f1 = fs_write machine_id_path id f
-       end
-    /\ filter_peer (m_dh m) = true.
+       end.
 Proof.
   intros u Hu e f m Hm Hd Hpre.
   destruct (handle_peer_get_id u Hu e f m Hm Hd Hpre) as (id & f1 & H1 & H2 & H3).
   exists id, f1, (push_str id (make_response (m_dh m))). split; [exact H1|].
-  split; [apply push_str_reply, make_response_empty_reply|]. split; [reflexivity|]. split; [exact H2|].
-  split; [exact H3|]. apply filter_peer_spec. right. assumption.
+  split; [apply push_str_reply, make_response_empty_reply|]. split; [reflexivity|]. split; [exact H2|exact H3].
 Qed.
 Print Assumptions C20_peer_get_id.
